@@ -88,7 +88,7 @@ void h_WU(void) { ClipperBase* s; Active *a, *b; winding_update(s, a, b); VF_CAN
 
 //@run name=GetPolyType entry=h_GetPolyType enforce=GetPolyType__p flags=SAFETY timeout=60
 //@run name=IsContributingClosed entry=h_ICC enforce=IsContributingClosed flags=SAFETY timeout=120
-//@run name=IsContributingClosed.z entry=h_ICC enforce=IsContributingClosed flags=SAFETY defs=USINGZ timeout=120 tier=thorough props=C01,C15
+//@run name=IsContributingClosed.z entry=h_ICC enforce=IsContributingClosed flags=SAFETY defs=USINGZ timeout=120 props=C01,C15
 //@run name=IsContributingOpen entry=h_ICO enforce=IsContributingOpen flags=SAFETY timeout=120 props=C05,C10,C14
 //@run name=winding_update entry=h_WU enforce=winding_update flags=SAFETY timeout=120
 //@assume R19: only the "UPDATE WINDING COUNTS" block of IntersectEdges is under contract (block extraction between its source comment and the following switch); the rest of IntersectEdges is not verified.
